@@ -14,7 +14,37 @@ import collections
 
 from .loader import norm, AnalysisError
 
-V = collections.namedtuple('V', 'kind name deps')
+class V(object):
+    """abstract value (immutable); hash cached because states are hashed on every propagation step"""
+    __slots__ = ('kind', 'name', 'deps', '_h')
+
+    def __init__(self, kind, name, deps=frozenset()):
+        object.__setattr__(self, 'kind', kind)
+        object.__setattr__(self, 'name', name)
+        object.__setattr__(self, 'deps', deps)
+        object.__setattr__(self, '_h', hash((kind, name, deps)))
+
+    def __setattr__(self, k, v):
+        raise AttributeError('immutable')
+
+    def __hash__(self):
+        return self._h
+
+    def __eq__(self, other):
+        return self is other or (isinstance(other, V) and self._h == other._h and self.kind == other.kind and
+                                 self.name == other.name and self.deps == other.deps)
+
+    def __ne__(self, other):
+        return not self.__eq__(other)
+
+    def _replace(self, **kw):
+        return V(kw.get('kind', self.kind), kw.get('name', self.name), kw.get('deps', self.deps))
+
+    def __repr__(self):
+        return 'V(kind=%r, name=%r, deps=%r)' % (self.kind, self.name, self.deps)
+
+    def __iter__(self):
+        return iter((self.kind, self.name, self.deps))
 NONE = V('none', None, frozenset())
 TRUE = V('true', True, frozenset())
 FALSE = V('false', False, frozenset())
@@ -44,23 +74,66 @@ def sym(name, deps=EMPTY):
     return V('sym', name, frozenset(deps))
 
 
+class TDict(dict):
+    """dict that remembers the frozenset of its items until it is mutated (states are hashed on every step)"""
+    __slots__ = ('fk',)
+
+    def __init__(self, *a):
+        dict.__init__(self, *a)
+        self.fk = None
+
+    def __setitem__(self, k, v):
+        self.fk = None
+        dict.__setitem__(self, k, v)
+
+    def __delitem__(self, k):
+        self.fk = None
+        dict.__delitem__(self, k)
+
+    def pop(self, *a):
+        self.fk = None
+        return dict.pop(self, *a)
+
+    def update(self, *a, **kw):
+        self.fk = None
+        dict.update(self, *a, **kw)
+
+    def clear(self):
+        self.fk = None
+        dict.clear(self)
+
+    def setdefault(self, k, d=None):
+        self.fk = None
+        return dict.setdefault(self, k, d)
+
+    def frozen(self):
+        if self.fk is None:
+            self.fk = frozenset(self.items())
+        return self.fk
+
+    def clone(self):
+        n = TDict(self)
+        n.fk = self.fk
+        return n
+
+
 class State(object):
     __slots__ = ('env', 'facts', 'extra', '_key')
     strip_deps = True
 
     def __init__(self, env=None, facts=None, extra=None):
-        self.env = env or {}
-        self.facts = facts or {}
-        self.extra = extra or {}
+        self.env = env if isinstance(env, TDict) else TDict(env or {})
+        self.facts = facts if isinstance(facts, TDict) else TDict(facts or {})
+        self.extra = extra if isinstance(extra, TDict) else TDict(extra or {})
         self._key = None
 
     def key(self):
         if self._key is None:
-            self._key = (frozenset(self.env.items()), frozenset(self.facts.items()), frozenset(self.extra.items()))
+            self._key = (self.env.frozen(), self.facts.frozen(), self.extra.frozen())
         return self._key
 
     def copy(self):
-        return State(dict(self.env), dict(self.facts), dict(self.extra))
+        return State(self.env.clone(), self.facts.clone(), self.extra.clone())
 
     def set(self, path, value):
         s = self.copy()
